@@ -3,12 +3,14 @@ import colorsys
 from opt_common import css_read, _named
 
 OPAQUE_KINDS = ["hex6", "HEX6", "hex3", "barehex", "rgbfn", "rgbfn_ws", "hsl", "hsl_uc", "named", "tuple", "list"]
-TRANSLUCENT_KINDS = ["rgba", "hsla", "rgba_tuple", "rgba_uc", "hsla_uc"]
+TRANSLUCENT_KINDS = ["rgba", "hsla", "rgba_tuple", "rgba_uc", "hsla_uc", "rgb4", "rgb_slash", "bare4"]
 
 # the documented output format for each input spelling kind
 OUT_FORMAT = {"hex6": "hex", "HEX6": "hex", "hex3": "hex", "barehex": "hex", "rgbfn": "rgb", "rgbfn_ws": "rgb",
               "hsl": "hsl", "named": "hex", "tuple": "tuple", "list": "tuple",
-              "rgba": "hex", "hsla": "hex", "rgba_tuple": "hex", "hsl_uc": "hsl", "rgba_uc": "hex", "hsla_uc": "hex"}
+              "rgba": "hex", "hsla": "hex", "rgba_tuple": "hex", "hsl_uc": "hsl", "rgba_uc": "hex", "hsla_uc": "hex",
+              # translucent text written without the `rgba(` prefix: the library accepts it and answers in rgb() notation
+              "rgb4": "rgb", "rgb_slash": "rgb", "bare4": "rgb"}
 
 
 def hsl_string(rgb):
@@ -68,7 +70,39 @@ def spell(rng, rgb, kind):
         if s:
             a = rng.choice([1, 0.5, 0.75, round(rng.random(), 3)])
             return s.replace("hsl(", "hsla(")[:-1] + ", %s)" % a, kind
+    if kind in ("rgb4", "rgb_slash", "bare4"):
+        a = rng.choice([1, 1.0, 0.5, 0.25, 0.9, round(rng.random(), 3), "60%"])
+        if kind == "rgb4":
+            return "rgb(%d, %d, %d, %s)" % (r, g, b, a), kind
+        if kind == "rgb_slash":
+            return rng.choice(["rgb(%d %d %d / %s)", "RGB(%d %d %d / %s)"]) % (r, g, b, a), kind
+        return rng.choice(["%d, %d, %d, %s", "%d %d %d %s"]) % (r, g, b, a), kind
     if kind == "rgba_tuple":
         a = rng.choice([1.0, 0.5, 0.3, round(rng.random(), 3)])
         return (r, g, b, a), kind
     return "#%02x%02x%02x" % tuple(rgb), "hex6"
+
+
+def alpha_of(value, kind):
+    """the alpha a translucent spelling was written with (1.0 for opaque kinds)"""
+    import re
+    base = kind[:-3] if kind.endswith("_uc") else kind
+    if base not in ("rgba", "hsla", "rgba_tuple", "rgb4", "rgb_slash", "bare4"):
+        return 1.0
+    if isinstance(value, (tuple, list)):
+        return float(value[3])
+    tok = re.findall(r"[-+]?\d*\.?\d+%?", value)[-1]
+    return float(tok[:-1]) / 100.0 if tok.endswith("%") else float(tok)
+
+
+def composite(rgb, alpha, bg):
+    """the text colour composited over the background, exactly (fractions), rounded half-even per channel"""
+    from fractions import Fraction
+    a = Fraction(repr(float(alpha))) if not isinstance(alpha, Fraction) else alpha
+    out = []
+    for c, k in zip(rgb, bg):
+        v = Fraction(c) * a + Fraction(k) * (1 - a)
+        n = v.numerator // v.denominator
+        frac = v - n
+        out.append(n + 1 if frac > Fraction(1, 2) or (frac == Fraction(1, 2) and n % 2 == 1) else n)
+    return tuple(out)
